@@ -257,12 +257,34 @@ func runC16(t *testing.T, sched simrt.Schedule, prog c16Prog) ([]Violation, RunS
 			}
 			return nil
 		}
+		// The collector loop ticks every 45-75 simulated seconds, also in the middle of other actions: an upload
+		// that is not linked and older than the grace hour may disappear at any time. wasLinked remembers the
+		// state at the previous check (a link removed since then makes the file collectable only from now on).
+		collectedNow := 0
+		dropUp := func(id types.Uid) {
+			var keep []*c16Up
+			for _, u := range ups {
+				if u.ID != id {
+					keep = append(keep, u)
+				}
+			}
+			ups = keep
+		}
+		wasLinked := map[types.Uid]bool{}
+		collectable := func(u *c16Up) bool { return !wasLinked[u.ID] && w.rt.Now()-u.At > time.Hour }
+		var linkedNow func(id types.Uid) bool
 		// every completed upload that the ledger says must exist does, with its bytes
 		verifyStore := func(where string, mayBeGone map[types.Uid]bool) {
-			for _, u := range ups {
+			for _, u := range append([]*c16Up{}, ups...) {
 				row := w.Disk.FileUploads[u.ID]
 				data, err := os.ReadFile(u.Location)
 				if mayBeGone[u.ID] {
+					continue
+				}
+				if row == nil && err != nil && collectable(u) {
+					simrt.Probe("c16.collected")
+					collectedNow++
+					dropUp(u.ID)
 					continue
 				}
 				if row == nil || err != nil {
@@ -271,8 +293,11 @@ func runC16(t *testing.T, sched simrt.Schedule, prog c16Prog) ([]Violation, RunS
 					out = append(out, vio("C16", "stored-bytes-differ", "%s: stored bytes of %s differ from what was uploaded", where, u.URL))
 				}
 			}
+			for _, u := range ups {
+				wasLinked[u.ID] = linkedNow(u.ID)
+			}
 		}
-		linkedNow := func(id types.Uid) bool {
+		linkedNow = func(id types.Uid) bool {
 			for _, l := range w.Disk.FileLinks {
 				if l.FileId == id {
 					return true
@@ -345,6 +370,11 @@ func runC16(t *testing.T, sched simrt.Schedule, prog c16Prog) ([]Violation, RunS
 					out = append(out, vio("C16", "valid-upload-refused "+keyLabel+" "+authLabel, "%s: %s upload of %d bytes with %s / %s answered %d %s", where, method, len(body), keyLabel, authLabel, code, strings.TrimSpace(rw.Body.String())))
 				}
 				if !accepted {
+					c0 := collectedNow
+					verifyStore(where, nil)
+					if collectedNow != c0 {
+						continue // the collector ran during this action: the store changed for that reason
+					}
 					if d := w.Disk.Dump(); d != preDisk {
 						out = append(out, vio("C16", "refused-upload-changed-store", "%s: upload answered %d changed the store:\n%s", where, code, diffLines(preDisk, d)))
 					}
@@ -414,6 +444,11 @@ func runC16(t *testing.T, sched simrt.Schedule, prog c16Prog) ([]Violation, RunS
 				preDisk, preDir := w.Disk.Dump(), dirState()
 				rw := doHTTP(largeFileServe, req)
 				downloads++
+				c0 := collectedNow
+				verifyStore(where, nil)
+				if collectedNow != c0 {
+					continue
+				}
 				if d := w.Disk.Dump(); d != preDisk || dirState() != preDir {
 					out = append(out, vio("C16", "download-changed-store", "%s: %s %s changed the store or the upload directory:\n%s", where, method, sh.url, diffLines(preDisk, d)))
 				}
